@@ -34,7 +34,7 @@ func c04Ops(wide bool) []c04Op {
 		}
 	}
 	ops = append(ops, c04Op{"close", "close", "", ""})
-	ops = append(ops, c04Op{"if(true)", "if", "", ""}, c04Op{"if(false)", "iffalse", "", ""}, c04Op{"else", "else", "", ""})
+	ops = append(ops, c04Op{"if(true)", "if", "", ""}, c04Op{"if(false)", "iffalse", "", ""}, c04Op{"else", "else", "", ""}, c04Op{"elseif(true)", "elseif", "", ""}, c04Op{"elseif(false)", "elseiffalse", "", ""})
 	for _, n := range []string{"x", "y", "v"} {
 		for _, t := range []string{VInt, VStr} {
 			ops = append(ops, c04Op{"each(" + n + ":" + t + ")", "each", n, t})
@@ -100,10 +100,20 @@ func c04Build(cs c04Case, maxDepth int) (tree []*Node, ok bool) {
 		isIf    bool
 		bare    bool
 		collect *[]*Node
+		// when set, statements go to elseIfOf.ElseIfs[elseIfIdx].Body
+		elseIfOf  *Node
+		elseIfIdx int
 	}
 	root := []*Node{}
 	stack := []frame{{collect: &root}}
-	emit := func(n *Node) { *stack[len(stack)-1].collect = append(*stack[len(stack)-1].collect, n) }
+	emit := func(n *Node) {
+		f := &stack[len(stack)-1]
+		if f.collect == nil && f.elseIfOf != nil {
+			f.elseIfOf.ElseIfs[f.elseIfIdx].Body = append(f.elseIfOf.ElseIfs[f.elseIfIdx].Body, n)
+			return
+		}
+		*f.collect = append(*f.collect, n)
+	}
 	for pos, ix := range cs.Ops {
 		op := ops[ix]
 		switch op.kind {
@@ -138,8 +148,21 @@ func c04Build(cs c04Case, maxDepth int) (tree []*Node, ok bool) {
 			}
 			f.inElse = true
 			f.node.HasElse = true
+			f.elseIfOf = nil
 			f.collect = &f.node.Else
 			emit(nText("E:"))
+		case "elseif", "elseiffalse":
+			f := &stack[len(stack)-1]
+			if !f.isIf || f.inElse {
+				return nil, false
+			}
+			f.node.ElseIfs = append(f.node.ElseIfs, ElseIf{Cond: eLit(vBool(op.kind == "elseif"))})
+			// the slice may be re-allocated by a later append: collect through an index-stable pointer
+			idx := len(f.node.ElseIfs) - 1
+			nd := f.node
+			f.collect = nil
+			f.elseIfOf, f.elseIfIdx = nd, idx
+			emit(nText("EI:"))
 		case "each":
 			if len(stack) > maxDepth {
 				return nil, false
